@@ -143,7 +143,7 @@ func runList(cfg *runConfig) int {
 
 func hasProp(props []string, p string) bool {
 	for _, q := range props {
-		if q == p || q == p+"!" {
+		if q == p || q == p+"!" || q == p+"!!" {
 			return true
 		}
 	}
